@@ -275,6 +275,12 @@ func (g *Registry) ServeHTTP(w http.ResponseWriter, r *http.Request) {
 		panic(http.ErrAbortHandler)
 	}
 	for k, vs := range resp.Header {
+		if len(vs) == 0 {
+			// a key present without values suppresses the header altogether
+			// (net/http would otherwise sniff a Content-Type for the body)
+			w.Header()[k] = nil
+			continue
+		}
 		for _, v := range vs {
 			w.Header().Add(k, v)
 		}
